@@ -76,6 +76,9 @@ MUTANTS = [
     M("nan never tried in the last group", [(F_BC, "        for n in range(len(combination)):", "        for n in range(len(combination) - 1):")], "R-enum-bounds", "inside every group"),
     M("enumeration bounded by a constant", [(F_BC, "combinations = consecutive_combinations(raw_order, self.max_n_mod, min_group_size=1)", "combinations = consecutive_combinations(raw_order, 5, min_group_size=1)")], "R-enum-bounds", "bounded by self.max_n_mod"),
 ]
+MUTANTS += [
+    M("frequencies rounded before the threshold test", [(F_BC, "            min_freq_train = all(train_rates[\"frequency\"] >= self.min_freq_mod)", "            min_freq_train = all(train_rates[\"frequency\"].round(2) >= self.min_freq_mod)")], "R-viability-formula"),
+]
 BENIGN = [
     B("flags inlined", [(F_BC, "            train_viable = min_freq_train and distinct_rates_train", "            train_viable = all(train_rates[\"frequency\"] >= self.min_freq_mod) and distinct_rates_train")]),
     B("min freq as not any(<)", [(F_BC, "            min_freq_train = all(train_rates[\"frequency\"] >= self.min_freq_mod)", "            min_freq_train = not any(train_rates[\"frequency\"] < self.min_freq_mod)")]),
